@@ -129,7 +129,8 @@ type clipModel struct {
 }
 
 func newClipModel(c *Ctx) *clipModel {
-	m := &clipModel{c: c, it: &oInterp{p: c.P, maxDepth: 8}}
+	symResetEval()
+	m := &clipModel{c: c, it: &oInterp{p: c.P, maxDepth: 48}}
 	g := func(n string) types.Type {
 		if t := c.P.NamedType("geom", n); t != nil {
 			return t
